@@ -227,7 +227,7 @@ func init() {
 		boundedChecks[pid] = append(boundedChecks[pid], func(w *World, tier string, seed int, verif string) []boundedResult {
 			return []boundedResult{runHarness(w, verif, tier, seed, harnessSpec{
 				name: "shared-client-log-filters", pkg: "dig", pkgName: "dig", dir: "plan", files: []string{"plan_bounded_test.go", "sharedlogs_bounded_test.go"}, run: "TestVerifSharedLogsBounded",
-				bound: "every transaction emits two logs from two contracts; three integrations (eth_getLogs restricted to the first contract, to the second, unrestricted) x {headers + logs, blocks + logs} plans on ONE client in 6 request orders (ABA, BAB, ABUAB, UAB, BUA, AUB) over 2 blocks x 2 transactions, the node applying the address restriction: every request stores exactly what an uncached client gives that integration, which is what the node reports for it",
+				bound: "every transaction emits two logs from two contracts; four integrations (eth_getLogs restricted to the first contract, to the second, unrestricted, and one taking its logs from the receipts) x {headers + logs, blocks + logs} plans on ONE client in 10 request orders (ABA, BAB, ABUAB, UAB, BUA, AUB, AR, BRA, RAB, ABR) over 2 blocks x 2 transactions, the node applying the address restriction: every request stores exactly what an uncached client gives that integration, which is what the node reports for it",
 			})}
 		})
 	}
